@@ -60,6 +60,24 @@ def run_case(case):
     if max_len < 3:
         # every ordered triple of ROADMs (the full 3-lists over the wider alphabet are left to the thorough tier)
         lists += list(itertools.permutations([u for u in cands if u.startswith('roadm ') and u != 'roadm Nowhere'], 3))
+    # "explicit" lists: one line element of every link of a walk of 2-4 directed links from the source site to the destination
+    # site, walks that come back to a site included (the list then describes a loop, not a route)
+    sites = rg.SITES[:case['n']]
+    adj = {a: [] for a in sites}
+    for i, j in case['edges']:
+        adj[sites[i]].append(sites[j])
+        adj[sites[j]].append(sites[i])
+    line_uids = {e['uid'] for e in topo['elements'] if e['type'] == 'Fiber'}
+    walks = {}
+    def extend(w):
+        if 2 <= len(w) - 1 <= (3 if max_len < 3 else 4) and w[0] != w[-1]:
+            walks.setdefault((f'trx {w[0]}', f'trx {w[-1]}'), []).append(
+                tuple(f'{a}>{b}:0:Fiber' for a, b in zip(w, w[1:])))
+        if len(w) - 1 < (3 if max_len < 3 else 4):
+            for nx_ in adj[w[-1]]:
+                extend(w + [nx_])
+    for a in sites:
+        extend([a])
     pairs = [(s.uid, d.uid) for s in trx for d in trx if s is not d]
     if case.get('pairs'):
         pairs = pairs[:case['pairs']]
@@ -67,7 +85,7 @@ def run_case(case):
         other_trx = next((t.uid for t in trx if t.uid not in (src, dst)), None)
         paths = all_paths[(src, dst)]
         shortest = min(L for _, L in paths)
-        for inc in lists:
+        for inc in lists + [w for w in walks.get((src, dst), []) if all(u in line_uids for u in w)]:
             for hop in (HOPS if inc else ['STRICT']):
                 if hop == 'MIXED' and len(inc) < 2:
                     continue
@@ -191,7 +209,7 @@ def main(rep, tier, seed):
     rep.absorb(results)
     rep.cov['bound'] = (f'{len(cases)} networks (connected graphs on 3-5 ROADM sites from the graph atlas x length assignments x '
                         f'link styles), every ordered source/destination pair, every ordered include list of <= '
-                        f'{2 if tier == "quick" else 3} nodes from the per-network alphabet (+ every ordered ROADM triple) x hop types STRICT/LOOSE/mixed')
+                        f'{2 if tier == "quick" else 3} nodes from the per-network alphabet (+ every ordered ROADM triple; + one fibre per link of every walk of 2-3 (thorough: 4) links from source to destination site, loops included) x hop types STRICT/LOOSE/mixed')
     rep.cov['space_size'] = len(cases)
     rep.cov['evaluations'] = sum(r.get('transitions', 0) for r in results)
     rep.cov['exhaustive'] = not stats['budget_hit'] and len(results) == len(cases)
